@@ -122,7 +122,7 @@ def run(ctx):
 def judge_witness(w):
     if 'body_word' not in w:
         return []
-    c = {'src': w['src'], 'opts': w.get('opts') or {}, 'multi': False}
+    c = {'src': w['src'], 'opts': w.get('opts') or {}, 'multi': False, 'files': w.get('files')}
     r = t2t.run_case(c)
     if r['outcome'] != 'ok':
         return []
